@@ -262,6 +262,25 @@ pub fn run_auth(args: &Args) -> (u64, u64) {
     }
     // three logins INTERLEAVED step by step on this thread (all register, then all proofs, all clients, all servers in
     // another order, all client verdicts, reconnects in turn): each object carries its own state, nothing is shared
+    // accounts whose x = H(salt | H(U:P)) has an all-zero ALIGNED 32-bit word (corpus/x_zero_words.ndjson: four salts found by
+    // a search over 4.5 * 10^9 salts, one per word position; inputs only - the specification recomputes x and counts the class)
+    {
+        let root = std::env::var("VERIF_ROOT").unwrap_or_else(|_| "/verif".to_string());
+        let path = format!("{}/corpus/x_zero_words.ndjson", root);
+        if std::path::Path::new(&path).exists() {
+            h.reset("auth-x-zero-words");
+            for (k, e) in read_ndjson(&path).iter().enumerate() {
+                let (u, p) = (e["user"].as_str().unwrap_or("A").to_string(), e["pass"].as_str().unwrap_or("A").to_string());
+                let salt = arr32(&jbytes(&e["salt"]));
+                for variant in 0..2 {
+                    let prm = Params { user: &u, pass: &p, typed_user: &case_variant(&u, k + variant), typed_pass: &case_variant(&p, k), salt: Some(salt), b: None, a: None, storage: variant == 1 };
+                    if let Some(mut sess) = honest_login(&mut h, &prm) {
+                        good_reconnect(&mut h, &mut sess);
+                    }
+                }
+            }
+        }
+    }
     // server keys chosen NEAR k*v (the client subtracts k*g^x from B): B - k*v with whole 32-bit / 64-bit words of ones or
     // zeros, B equal to k*v in some words with a borrow coming from below, B = k*v - 1, k*v + 1, k*v + 2^(32 i) - 1.
     // With the built-in group (7 generates every residue) each such B is the key of an honest server for SOME private key,
@@ -584,6 +603,10 @@ pub fn run_tamper(args: &Args) -> (u64, u64) {
             let mut t = N_LE; t[31] = 0xFF; above.push(t);
             let (an, ov) = crate::util::le_add(&abytes, &N_LE);
             if !ov { above.push(an); }
+            // ... and the server's own B reflected as A, B with one bit flipped, B + 1
+            above.push(bbytes);
+            above.push(arr32(&flip(&bbytes, 9)));
+            above.push(crate::util::le_add_mod(&bbytes, &{ let mut x = [0u8; 32]; x[0] = 1; x }, &[0xFFu8; 32]));
             for ka in above {
                 let Some(kpub) = h.pubkey(ka) else { continue };
                 let (pc, pp) = clone_proof(&mut h, po, &proof);
@@ -764,6 +787,31 @@ pub fn run_reconnect(args: &Args) -> (u64, u64) {
         }
         h.drop_event(s.so);
     }
+    // account names with a punctuation character at EVERY position of a 16-character name (and short names of punctuation
+    // only): the name enters the reconnect proof exactly as it was normalised at login
+    {
+        h.reset("reconnect-name-positions");
+        let specials = ['{', '|', '}', '~', '`', '@', '[', '\\', ']', '^', '_', '!', '/', ':', ';', '?'];
+        let base: Vec<char> = "ABCDEFGHIJKLMNOP".chars().collect();
+        let mut names: Vec<String> = vec![];
+        for pos in 0..16usize {
+            let mut t = base.clone();
+            t[pos] = specials[(pos * 5 + 13) % specials.len()];
+            names.push(t.iter().collect());
+            if args.tier == "thorough" {
+                for sp in [0usize, 1, 2, 3] { let mut t = base.clone(); t[pos] = specials[sp]; names.push(t.iter().collect()); }
+            }
+        }
+        names.push("{|}~".to_string());
+        names.push("z{z|z}z~z".to_string());
+        for (k, name) in names.iter().enumerate() {
+            let typed = case_variant(name, k);
+            let prm = Params { user: name, pass: "PW", typed_user: &typed, typed_pass: "pw", salt: None, b: None, a: None, storage: k % 2 == 0 };
+            if let Some(mut sess) = honest_login(&mut h, &prm) {
+                good_reconnect(&mut h, &mut sess);
+            }
+        }
+    }
     // two live sessions of ONE account whose session keys share their first two bytes (found by logging the account in
     // natively up to 900 times with injected server keys; input selection only), then reconnects on the older and the
     // newer one in turn, and each client's proof presented to the other server
@@ -845,6 +893,9 @@ pub fn run_reconnect(args: &Args) -> (u64, u64) {
             good_reconnect(&mut h, &mut s);
             run *= 2;
         }
+        // the session left alone for 11 seconds, then the legitimate client (time is not an input)
+        std::thread::sleep(std::time::Duration::from_secs(11));
+        good_reconnect(&mut h, &mut s);
         // 70 000 refusals in a row (more than any 16-bit counter holds), then the legitimate client again
         if h.bulk_reject(s.so, &mut s.server, 70_000) {
             good_reconnect(&mut h, &mut s);
@@ -903,6 +954,23 @@ pub fn run_pubkey(args: &Args) -> (u64, u64) {
     let n = N_LE;
     h.pubkey(zero);
     h.pubkey(n);
+    // keys RELATED to N (and to 0): complement, byte order reversed, bits reversed, rotated by bytes, halves swapped, shifted,
+    // XOR with constant masks - all valid keys (none is 0 or N)
+    {
+        let mut rel: Vec<[u8; 32]> = vec![];
+        let mut t = n; for x in t.iter_mut() { *x = !*x; } rel.push(t);
+        let mut t = n; t.reverse(); rel.push(t);
+        let mut t = n; for x in t.iter_mut() { *x = x.reverse_bits(); } rel.push(t);
+        let mut t = n; t.reverse(); for x in t.iter_mut() { *x = x.reverse_bits(); } rel.push(t);
+        for k in [1usize, 4, 8, 16, 31] { let mut t = n; t.rotate_left(k); rel.push(t); }
+        for m in [0x55u8, 0xAA, 0x0F, 0xF0, 0x80, 0x01, 0xFF] { let mut t = n; for x in t.iter_mut() { *x ^= m; } rel.push(t); }
+        let mut t = [0u8; 32]; let mut c = 0u8; for i in (0..32).rev() { let v = n[i]; t[i] = (v >> 1) | (c << 7); c = v & 1; } rel.push(t);   // N >> 1
+        let mut t = [0u8; 32]; let mut c = 0u8; for i in 0..32 { let v = n[i]; t[i] = (v << 1) | c; c = v >> 7; } rel.push(t);               // 2N mod 2^256
+        for k in rel {
+            h.pubkey(k);
+            h.pubkey(n);
+        }
+    }
     // keys that READ like N when each byte (or 32-bit word) is printed without zero padding and the pieces are joined
     for k in crate::util::regroup_variants(&n) {
         h.pubkey(arr32(&k));
@@ -1028,6 +1096,23 @@ pub fn run_clientgroups(args: &Args) -> (u64, u64) {
             }
         }
     }
+    // the client REFUSES its own key (announced g = N, N = 1: documented panic, caught here), and the same thread then serves
+    // a complete login with the built-in group: nothing of the refused group may linger
+    {
+        h.reset("clientgroups-after-own-key-panic");
+        let one = { let mut x = [0u8; 32]; x[0] = 1; x };
+        if let Some(bpub) = h.pubkey({ let mut x = [0u8; 32]; x[0] = 9; x }) {
+            for (g, nn) in [(7u8, 7u8), (2, 2), (5, 1), (6, 3)] {
+                let mut n32 = [0u8; 32];
+                n32[0] = nn;
+                h.client_new("PANIC", "KEY", g, n32, bpub, [3u8; 32], Some(&one));
+                let prm = Params { user: "AFTER", pass: "PANIC", typed_user: "after", typed_pass: "panic", salt: None, b: None, a: None, storage: false };
+                if let Some(mut sess) = honest_login(&mut h, &prm) {
+                    good_reconnect(&mut h, &mut sess);
+                }
+            }
+        }
+    }
     // group hopping: ONE set of credentials and one salt, consecutive logins (same thread) that differ only in the
     // announced modulus, then only in the generator - nothing computed for one group may be reused for another
     {
@@ -1093,6 +1178,20 @@ pub fn run_adversary(args: &Args) -> (u64, u64) {
     sparse[31] = 1;
     let mut sparse2 = [0u8; 32];
     sparse2[16] = 0x80;
+    // TIME is not an input of any function here: a session left alone for 11 seconds (thorough: and 31 more) answers a
+    // wrong and a right reconnect attempt exactly as a fresh one does
+    if h.det.is_none() {
+        h.reset("adversary-time");
+        let prm = Params { user: "SLOW", pass: "PEER", typed_user: "SLOW", typed_pass: "PEER", salt: None, b: None, a: None, storage: false };
+        if let Some(mut s) = honest_login(&mut h, &prm) {
+            for pause in if thorough { vec![11u64, 31] } else { vec![11] } {
+                std::thread::sleep(std::time::Duration::from_secs(pause));
+                h.verify_reconnect(s.so, &mut s.server, [7u8; 16], [8u8; 20], "garbage");
+                std::thread::sleep(std::time::Duration::from_millis(1100));
+                good_reconnect(&mut h, &mut s);
+            }
+        }
+    }
     // a peer that keeps presenting wrong reconnect proofs: 300 and then 70 000 in a row never disturb the server
     {
         h.reset("adversary-bulk");
@@ -1226,6 +1325,20 @@ pub fn run_degenerate(args: &Args) -> (u64, u64) {
                     let mut nn = [0u8; 32];
                     nn[0] = n;
                     h.client_new("EDGE", "KEYS", g, nn, bpub, [0u8; 32], Some(&a));
+                }
+            }
+        }
+    }
+    // small announced moduli with UNREDUCED server keys around 2^31, 2^32, 2^63, 2^64 (B is any 32-byte value; the client reduces)
+    {
+        let small: Vec<[u8; 32]> = [23u64, 65537, 1_000_003, 2_305_843_009_213_693_951, 4_294_967_291].iter().map(|v| { let mut x = [0u8; 32]; x[..8].copy_from_slice(&v.to_le_bytes()); x }).collect();
+        let bs: Vec<[u8; 32]> = [1u128 << 31, (1 << 31) + 5, (1 << 32) - 1, 1 << 32, 1 << 62, 1 << 63, (1 << 63) + 1, (1u128 << 64) - 1, 1 << 64, (1 << 65) - 3, (1 << 127) + 9]
+            .iter().map(|v| { let mut x = [0u8; 32]; x[..16].copy_from_slice(&v.to_le_bytes()); x }).collect();
+        for nn in &small {
+            for bb in &bs {
+                let Some(bp) = h.pubkey(*bb) else { continue };
+                for (g, a) in [(2u8, one), (7, { let mut x = [0u8; 32]; x[0] = 3; x })] {
+                    h.client_new("EDGE", "KEYS", g, *nn, bp, [9u8; 32], Some(&a));
                 }
             }
         }
